@@ -211,6 +211,16 @@ def parse_raw(s):
     return c
 
 
+# How the implementation PRINTS a bitSet decides how the evaluator reads it: with the toUInt64 conversion the sum is a UInt64
+# bit mask (BitSet); without it ClickHouse shifts inside the UInt8 type of the comparison (BitSet8).  The reflection dump only
+# shows the struct, so the form is read off the statement text; "the tree prints to the observed text" (code 3) validates the choice.
+BITSET_KIND = ["BitSet"]
+
+
+def bitset_kind_of(sqltext):
+    return "BitSet8" if re.search(rb"bitShiftLeft\((?!toUInt64\()", sqltext) else "BitSet"
+
+
 LOPS = {"and": "OAnd", "or": "OOr", "==": "OEq", "!=": "ONeq", "<": "OLt", "<=": "OLe", ">": "OGt", ">=": "OGe"}
 JK = {"array": "JArray", "any left": "JAnyLeft"}
 
@@ -249,7 +259,7 @@ def conv_tree(t, stats=None):
     if k == "ord":
         return "(Ord %s %s)" % (conv_tree(t["e"], stats), "true" if t["desc"] else "false")
     if k == "bitset":
-        return "(BitSet %s)" % coq_list([conv_tree(x, stats) for x in t["terms"]])
+        return "(%s %s)" % (BITSET_KIND[0], coq_list([conv_tree(x, stats) for x in t["terms"]]))
     if k == "bitand":
         return "(BitAnd %s %s)" % (conv_tree(t["l"], stats), conv_tree(t["r"], stats))
     if k == "groupbitor":
@@ -333,6 +343,7 @@ def conv_obs(c, stats, full=True):
         if "sql" not in o:
             out.append("(%d%%Z, %s)" % (o["rf_i"], err_class(o["err"])))
         else:
+            BITSET_KIND[0] = bitset_kind_of(unhex(o["sql"]))
             tree = conv_tree(o["tree"], stats)      # always translated: an unknown object is reported even for hash-only cases
             if full:
                 out.append("(%d%%Z, ObsSql %s (Some %s) (Some %s))" % (o["rf_i"], fingerprint(unhex(o["sql"])), cs(unhex(o["sql"])), tree))
@@ -425,8 +436,26 @@ def gen_db(c, rnd):
     keys = sorted(pools)
     ctx = c["ctx"]
     cached = ctx["cached"] or []
+
+    def sat(op, v):
+        """an attribute value that makes the term true, where that is easy to say"""
+        if v["s"] is not None:
+            if v["unq"] is None or op in ("=~", "!~"):
+                return None
+            u = unhex(v["unq"]).decode("utf8", "replace")
+            return u if op == "=" else (u + "_" if op == "!=" else None)
+        if v["f"]:
+            try:
+                th = Decimal(v["f"])
+            except InvalidOperation:
+                return None
+            return {"=": dec_str(th), "!=": dec_str(th + 1), ">": dec_str(th + 1), ">=": dec_str(th), "<": dec_str(th - 1), "<=": dec_str(th)}.get(op)
+        return None
+
+    indexed = [(strip_scope(l), op, v) for l, op, v in terms if strip_scope(l) is not None and sat(op, v) is not None]
     rows = []
-    ntr = rnd.randint(1, 3)
+    # many traces when the limit is small (a LIMIT inside a sub-query only shows when it cuts something)
+    ntr = rnd.randint(2, 4) if 0 < ctx["limit"] <= 3 and rnd.random() < 0.6 else rnd.randint(1, 3)
     for t in range(ntr):
         tid = rnd.choice(cached) if cached and rnd.random() < 0.3 else "t%d" % (t + 1)
         if any(r["trace"] == tid for r in rows):
@@ -441,9 +470,26 @@ def gen_db(c, rnd):
                 ts = rnd.choice([ctx["to_ns"], ctx["to_ns"] - 1, ctx["to_ns"] + 5])
             dur = max(0, rnd.choice(durs))
             date = datetime.datetime.fromtimestamp(ts // 10**9, datetime.timezone.utc).strftime("%Y-%m-%d")
+            span = "s%d" % (sidx + 1 + (0 if rnd.random() < 0.5 else 3 * t))
+            if indexed and rnd.random() < 0.4:
+                # a span aimed at the selector: every term true / exactly one (a late one) / all but one
+                y = rnd.random()
+                if y < 0.45:
+                    chosen = list(indexed)
+                elif y < 0.8:
+                    chosen = [indexed[-1 - min(len(indexed) - 1, rnd.randrange(0, 3))]]
+                else:
+                    chosen = list(indexed)
+                    chosen.pop(rnd.randrange(len(chosen)))
+                attrs = {}
+                for k, op, v in chosen:
+                    attrs[k] = sat(op, v)
+                for k in sorted(attrs):
+                    rows.append({"date": date, "key": k, "val": attrs[k], "trace": tid, "span": span, "ts": ts, "dur": dur})
+                continue
             ks = rnd.sample(keys, min(len(keys), rnd.randint(1, 3)))
             for k in ks:
-                rows.append({"date": date, "key": k, "val": rnd.choice(pools[k]), "trace": tid, "span": "s%d" % (sidx + 1 + (0 if rnd.random() < 0.5 else 3 * t)), "ts": ts, "dur": dur})
+                rows.append({"date": date, "key": k, "val": rnd.choice(pools[k]), "trace": tid, "span": span, "ts": ts, "dur": dur})
     # rows of one span must agree on timestamp and duration (the writer copies them from the span)
     seen = {}
     for r in rows:
@@ -560,7 +606,21 @@ def run_text(ck):
     # second pass: every case that disagrees, or whose statement an oracle rejected, with the implementation's own object tree
     again = sorted(set([i for i, _ in mism] + viol + [i for i, _ in sem]) - fullids)
     if again:
-        sub = [c for c in usable if c["id"] in again][:300]
+        # at most 300 of them, taken round robin over the query classes (a change that alters every text must not crowd out
+        # the rare shapes), each with more generated databases: here the search has a reason to look harder
+        byclass = {}
+        for c in usable:
+            if c["id"] in again:
+                byclass.setdefault(c["class"], []).append(c)
+        sub = []
+        while len(sub) < 300 and any(byclass.values()):
+            for k in sorted(byclass):
+                if byclass[k] and len(sub) < 300:
+                    sub.append(byclass[k].pop(0))
+        for c in sub:
+            if c.get("dbs"):
+                rnd = random.Random(ck.seed * 7919 + c["id"])
+                c["dbs"] = c["dbs"] + [gen_db(c, rnd) for _ in range(3)]
         m, v, w, out = eval_text(ck, "C11_text_again", sub, stats)
         if m is None:
             ck.obligation("disagreeing cases re-evaluated with their object trees", False, out[-1500:])
